@@ -2,6 +2,7 @@ SPECIFICATION Spec
 CONSTANT MaxCall = 3
 CONSTANT MaxNest = 3
 CONSTANT Rich = TRUE
+CONSTANT FaultSel = "all"
 INVARIANT TypeOK
 INVARIANT WellFormed
 INVARIANT Emit
